@@ -33,7 +33,8 @@ CLAIMS = {
   "Unbounded proof that ws.Cipher computes payload[i] ^= mask[(offset+i) mod 4] for every length, alignment, key and "
   "offset in [0, 2^62] (word loops with invariants, termination measures and frame conditions), that the frame helpers "
   "(Mask/Unmask, in place or copying) apply exactly that XOR and flip only the Masked/Mask header fields, and that "
-  "wsutil.CipherReader continues the key position across arbitrary chunkings of the source.",
+  "wsutil.CipherReader/CipherWriter continue the key position across arbitrary chunkings (CipherWriter.Write also "
+  "leaves the caller's slice untouched).",
   "Offsets above 2^62 are outside the precondition (the Cipher index panic near MaxInt is recorded in DESIGN.md, not "
   "claimed). The unsafe word loads in Cipher are modelled as little-endian loads of the byte heap (trusted)."),
  "C03": ("proof",
@@ -64,9 +65,10 @@ CLAIMS = {
   "reserve/headerSize arithmetic): every flush emits one header+payload with the right opcode/FIN/continuation flags, "
   "length and mask, every accepted byte appears exactly once in order in the ghost output stream, the buffer invariant "
   "holds after every operation, sticky errors stay sticky.",
-  "Extensions are excluded by precondition (no SendExtension on the verified paths); pbytes pool Get/Put are trusted "
-  "contracts; one postcondition (Write [fitdata]) is marked unproved in the contract file and reported as such in "
-  "evidence; io.Writer is the abstract ghost stream."),
+  "flushFragment and WriteThrough are proved with zero or one send extension (its RSV bits are an uninterpreted "
+  "function of the header it is given and must reach the wire); the public entry points above them assume no "
+  "extension. pbytes pool Get/Put are trusted contracts; one postcondition (Write [fitdata]) is marked unproved in "
+  "the contract file and reported as such in evidence; io.Writer is the abstract ghost stream."),
  "C07": ("proof",
   "Proof that the UTF-8 DFA step function (decode) equals the RFC 3629 acceptor written as a spec, that "
   "UTF8Reader.Read folds it over exactly the bytes it hands out for every chunking, reports ErrInvalidUTF8 as soon as "
@@ -93,8 +95,9 @@ CLAIMS = {
   "PARTIAL: proof that the response status line is accepted with status 101 only if its status token is literally "
   "'101' between the first two blanks (httpParseResponseLine, bsplit3, asciiToInt: digits only, exact value for up to "
   "three digits; two defects found and fixed), that the version has the HTTP/<digits>.<digits> shape, that header "
-  "lines are split/trimmed/canonicalised as for C09, and that hostport appends the default port exactly when the "
-  "host has no explicit one.",
+  "lines are split/trimmed/canonicalised as for C09, that hostport appends the default port exactly when the "
+  "host has no explicit one, and that checkAcceptFromNonce accepts exactly the 28 bytes computed from the key "
+  "(SHA-1/base64 uninterpreted).",
   "Dialer.Upgrade / Dialer.Dial (request writing, header checks, accept-key comparison, extension matching, buffer "
   "hand-over) are NOT under contract. hostport assumes a host with at most one ']'."),
  "C12": ("proof",
@@ -110,7 +113,8 @@ CLAIMS = {
   "Proof that MessageState.SetBits/UnsetBits and SetBit/UnsetBit set/clear/accept RSV1 exactly on the first data frame "
   "of a message and refuse it elsewhere, leaving every other header field unchanged; NextFrame and flushFragment pass "
   "RSV bits through unchanged when no extension is installed.",
-  "The extension call sites inside wsutil.Writer/Reader are excluded by precondition (no extensions)."),
+  "The extension call sites (flushFragment, WriteThrough, NextFrame) are proved for at most one extension, modelled "
+  "as an uninterpreted function of the header (every frame header must pass through it, its result must be used)."),
  "C14": ("proof",
   "Proof that the per-parameter callback of Parameters.Parse accepts exactly the legal parameter forms (window bits "
   "8..15 plain decimal, no duplicates, value-less flags), and that Extension.Negotiate accepts at most once and only "
@@ -130,13 +134,15 @@ CLAIMS = {
   "black box; Reader.Discard reports a cut payload (defect found and fixed)."),
  "C17": ("proof",
   "Proof of freshness/aliasing clauses: MaskFrame/UnmaskFrame/MaskFrameWith return a payload that does not share "
-  "memory with the argument; wsutil.Writer.Write/WriteThrough do not retain or modify the caller's slice.",
+  "memory with the argument; wsutil.Writer.Write/WriteThrough and CipherWriter.Write do not retain or modify the "
+  "caller's slice; btsSelectProtocol returns a copy, never a view of the (pooled) header bytes.",
   "Pool reuse across objects (pbytes) is a trusted contract; ParseCloseFrameData's string copy is modelled by the "
   "string/slice view predicate."),
  "C18": ("proof",
   "Proof that every Reset/constructor under contract establishes exactly the state a fresh object has (wsutil.Writer, "
   "UTF8Reader, CipherReader/Writer, Reader.reset, wsflate Writer/Reader/cbuf/suffixedReader/Extension).",
-  "sync.Pool wrappers (GetWriter/PutWriter etc.) are not under contract."),
+  "GetWriter/PutWriter are proved over an assumed contract of the pool dependency (Get returns nothing or a *Writer "
+  "stored by PutWriter)."),
 }
 
 NA = {
